@@ -31,7 +31,7 @@ def shards(tier, seed, scale):
     out = []
     for h in range(halves):
         for hs in SEEDS:
-            out.append({"n": n, "nsys": int((200 if tier == "quick" else 600) * scale), "half": h, "hashseed": hs, "corpus_seed": seed * 7919 + h, "seed": seed * 7919 + h, "maxlen": 4})
+            out.append({"n": n, "nsys": int((200 if tier == "quick" else 600) * scale), "nfactory": int((150 if tier == "quick" else 1500) * scale), "half": h, "hashseed": hs, "corpus_seed": seed * 7919 + h, "seed": seed * 7919 + h, "maxlen": 4})
     return out
 
 
@@ -191,6 +191,40 @@ def run(spec, out):
         else:
             out.count("graph_texts_agree")
         digests.append([d1, g1])
+    # ---- repeated calls with short-lived callables: tensor factories of different signatures are created, used once and dropped, many times
+    # over (object addresses get reused); every repetition of a factory kind must reproduce the outcome of its first use
+    import gc
+    x = np.arange(6.0).reshape(3, 2)
+    kinds = {
+        "plain": lambda: (lambda shape: np.ones(shape) * 2),
+        "named": lambda: (lambda shape, name=None: np.ones(shape) * (3 if name is not None else 1)),
+        "varkw": lambda: (lambda shape, **kw: np.ones(shape) * (10 + len(kw))),
+        "argidx": lambda: (lambda shape, arg_index=None: np.ones(shape) * (5 + (arg_index or 0))),
+    }
+    first = {}
+    frng = random.Random(spec["corpus_seed"] + 99)
+    for rep in range(spec.get("nfactory", 0)):
+        kind = frng.choice(sorted(kinds))
+        f = kinds[kind]()
+        desc = frng.choice(["a b, b", "a b, a b", "a b, a"])
+        try:
+            r = value_digest(einx.add(desc, x, f), False)
+        except Exception as e:  # noqa
+            r = "E:" + type(e).__name__
+        del f
+        if frng.random() < 0.5:
+            gc.collect()
+        out.evaluation()
+        out.count("short_lived_factory_calls")
+        key = (kind, desc)
+        if key not in first:
+            first[key] = r
+            out.distinct_key(f"factory|{kind}|{desc}")
+        elif first[key] != r:
+            out.violation({"kind": "repetition-differs-with-short-lived-callable", "factory": kind}, {"factory_kind": kind, "desc": desc, "first": first[key], "now": r, "repetition": rep, "hashseed": spec["hashseed"]},
+                          f"einx.add({desc!r}, x, <fresh {kind} factory>): repetition {rep} gives {r}, the first use gave {first[key]}")
+        else:
+            out.count("short_lived_factory_repetitions_agree")
     # ---- solver systems (C02's generator): outcome of solve_axes / solve_shapes / matches per system; these reach the symbolic solver,
     # whose result must not depend on set iteration order or object addresses
     import signal
@@ -282,6 +316,8 @@ def finalize(agg, tier, seed):
                 elif a[1] != b[1] and not a[1].startswith("E:"):
                     agg.counters["graph_text_differs_across_hashseeds"] += 1
     agg.counters["cross_process_comparisons"] = compared
+    if agg.counters.get("short_lived_factory_repetitions_agree", 0) < 100:
+        agg.inconclusive.append("fewer than 100 agreeing repetitions with short-lived factories")
     if agg.counters.get("multi_defect_calls", 0) < 50:
         agg.inconclusive.append("fewer than 50 multi-defect calls observed")
     if compared < 100:
